@@ -1423,8 +1423,14 @@ class Executor(MatchMixin, ExprMixin):
             if fn.name == "TokenInfo":
                 return [(st, self.make_token(st, args, kwargs))]
             if fn.name == "ast.literal_eval" and len(args) == 1:
-                # external: a str or bytes value determined by the token text (its own errors are C11's known finding)
-                return [(st, PyLit(LE_BYTES(lift(args[0])), LE_VAL(lift(args[0]))))]
+                # external: a str or bytes value determined by the text -- or a SyntaxError of its own (located inside the text, not in the
+                # source: whoever calls it must catch and re-locate it)
+                st_r = st.clone()
+                ex = Exc("SyntaxError", getattr(node, "lineno", 0), "raised by ast.literal_eval")
+                if "SyntaxError" in self.classes:
+                    ex.obj = self.mk("obj:SyntaxError", "le_exc", st_r)[0]
+                    ex.obj.external = True        # carries coordinates of the literal's text: NOT a well-formed error of this parser
+                return [(st, PyLit(LE_BYTES(lift(args[0])), LE_VAL(lift(args[0])))), (st_r, ex)]
             if fn.name == "textwrap.dedent" and len(args) == 1:
                 return [(st, dedent(lift(args[0])))]        # external: uninterpreted str -> str
             if fn.name in MODE_KINDS:
